@@ -387,7 +387,7 @@ pub fn dest_plan(r: &mut Rng, with_faults: bool) -> DestPlan {
         }
         fx.sort_by_key(|(o, _)| *o);
     }
-    DestPlan { start, pre_len, origin, fx }
+    DestPlan { start, pre_len, origin, fx, short_entry: 0 }
 }
 
 fn dir_plan(r: &mut Rng) -> DirPlan {
@@ -2949,6 +2949,10 @@ pub fn generate(prop: &str, verif_seed: u64, idx: u64) -> Scenario {
             let mut sc = small_rich(&mut r, prop, seed, "c10-crash-points");
             if let Workload::Dump(p) = &mut sc.workload {
                 p.dests = vec![dest_plan(&mut r, false)];
+                if r.chance(1, 4) {
+                    p.dests[0].short_entry = *r.pick(&[1u64, 4, 7, 8, 11]);
+                    sc.tags.push("entry-writes-split".into());
+                }
             }
             if r.chance(1, 10) {
                 kill_at_linker_read(&mut r, &mut sc);
